@@ -1588,6 +1588,19 @@ class Compiler:
                 op=ast.And(),
             )
 
+        if not node.eq:
+            # A dynamic value for an attribute that was written without a
+            # value: an empty result (e.g. ``default``) keeps it as written.
+            return body + template(
+                "if CONDITION: __append(FORMAT % TARGET if TARGET else BARE)",
+                FORMAT=ast.Constant(
+                    node.space + node.name + "=" +
+                    node.quote + "%s" + node.quote),
+                BARE=ast.Constant(node.space + node.name),
+                TARGET=target,
+                CONDITION=condition,
+            )
+
         return body + template(
             "if CONDITION: __append(FORMAT % TARGET)",
             FORMAT=ast.Constant(attr_format),
